@@ -40,7 +40,10 @@ class System:
                 H[i, (i + 1) % n] = float(rng.choice([-1, 1])) * float(rng.uniform(1.5, 3.0))
             self.A = H.astype(dtype)
             self.b = (self.A @ self.xs + dtype.type(0.1) * np.sin(np.roll(self.xs, -1))).astype(dtype)
-        self.has_root = fam in ("dd", "singular2", "singular3", "scaled", "hollow")
+        if fam in ("logdom", "sqrtdom"):
+            # restricted domain: F is NaN outside x > 0 (x >= 0); the root xs is inside the domain, far guesses make the iteration leave it
+            self.xs = np.abs(self.xs) + dtype.type(0.2)
+        self.has_root = fam in ("dd", "singular2", "singular3", "scaled", "hollow", "logdom", "sqrtdom")
         self.calls = 0
 
     def F(self, x, *a, **k):
@@ -61,6 +64,10 @@ class System:
             out = (xf - self.xs) ** 2 + self.c
         elif f == "flat":
             out = np.exp(xf) + self.c
+        elif f == "logdom":
+            out = np.log(xf) - np.log(self.xs)
+        elif f == "sqrtdom":
+            out = np.sqrt(xf) - np.sqrt(self.xs) + xf.dtype.type(0.1) * (np.roll(xf, 1) - np.roll(self.xs, 1))
         return out.reshape(np.shape(x))
 
     def J(self, x, *a, **k):
@@ -83,6 +90,12 @@ class System:
             J = np.diag(2 * (xf - self.xs))
         elif f == "flat":
             J = np.diag(np.exp(xf))
+        elif f == "logdom":
+            J = np.diag(1.0 / xf)
+        elif f == "sqrtdom":
+            J = np.diag(0.5 / np.sqrt(xf)) + xf.dtype.type(0.1) * np.roll(np.eye(len(xf), dtype=xf.dtype), -1, axis=1) * (1.0 if len(xf) > 1 else 0.0)
+            if len(xf) == 1:
+                J = np.diag(0.5 / np.sqrt(xf)) + xf.dtype.type(0.1)
         return J
 
 
@@ -99,6 +112,15 @@ def gen_cases(tier, seed):
                           guess=str(rng.choice(["good", "bad", "far", "huge"])), tol=str(rng.choice(["none", "1e-10", "1e-6"])), pseed=int(rng.integers(1 << 30)),
                           maxiter=int(rng.choice([0, 0, 3, 6, 12, 32])), use_scipy=bool(rng.random() < 0.8),
                           cost=1 + n / 3.0 + (4 if dtype == "longdouble" else 0)))
+    # right-hand sides with a restricted domain (log, sqrt): a trial point outside it evaluates to NaN, which is not a root
+    rng2 = rng_for(1504, seed)
+    for i in range(120 if tier == "quick" else 1200):
+        n = int(rng2.choice([1, 1, 2, 3, 4]))
+        shape = SHAPES[n][int(rng2.integers(len(SHAPES[n])))]
+        solver = str(rng2.choice(["nonlinear_roots", "nonlinear_roots", "hybrj", "newtontrustregion"]))
+        cases.append(dict(kind="solve", solver=solver, dtype=str(rng2.choice(["float64", "longdouble"])), fam=["logdom", "sqrtdom"][i % 2], n=n, shape=list(shape),
+                          jac=bool(rng2.random() < 0.6) or solver == "hybrj", guess=str(rng2.choice(["good", "bad", "x3", "x10", "far"])), tol=str(rng2.choice(["none", "1e-10", "1e-6"])),
+                          pseed=int(rng2.integers(1 << 30)), maxiter=0, use_scipy=bool(rng2.random() < 0.7), cost=2 + n / 3.0))
     for i in range(6 if tier == "quick" else 60):
         cases.append(dict(kind="insitu", method=str(rng.choice(["RadauIIA5", "GaussLegendre4", "BackwardEuler", "LobattoIIIC4", "CrankNicolson"])),
                           dtype=str(rng.choice(["float64", "float64", "longdouble"])), pseed=int(rng.integers(1 << 30)), cost=20))
@@ -113,8 +135,12 @@ def run_case(spec):
     dt = dtype_of(spec["dtype"])
     S = System(spec["fam"], spec["n"], spec["shape"], spec["pseed"], dt)
     rng = rng_for(1503, spec["pseed"])
-    off = {"good": 0.05, "bad": 1.5, "far": 25.0, "huge": 1e6}[spec["guess"]]
-    x0 = (S.xs + off * rng.uniform(-1, 1, S.n)).astype(dt).reshape(S.shape)
+    if spec["guess"] in ("x3", "x10"):
+        # inside the domain, but a full Newton step from here leaves it (log: x0 > e*xs)
+        x0 = (S.xs * {"x3": 3.5, "x10": 10.0}[spec["guess"]] * rng.uniform(1.0, 1.5, S.n)).astype(dt).reshape(S.shape)
+    else:
+        off = {"good": 0.05, "bad": 1.5, "far": 25.0, "huge": 1e6}[spec["guess"]]
+        x0 = (S.xs + off * rng.uniform(-1, 1, S.n)).astype(dt).reshape(S.shape)
     tol = None if spec["tol"] == "none" else float(spec["tol"])
     tol_eff = float(D.tol_epsilon(dt)) if tol is None else tol
     path = "minpack" if (spec["solver"] == "nonlinear_roots" and spec["dtype"] == "float64") else ("dogleg" if spec["solver"] in ("nonlinear_roots", "hybrj") else "ntr")
@@ -175,7 +201,11 @@ def run_case(spec):
         rec.worst("residual_over_bound_" + path, res / bound)
         rec.sample["residual"] = res
         rec.sample["bound"] = bound
-        if not np.isfinite(res) or res > bound:
+        if S.fam in ("logdom", "sqrtdom"):
+            rec.bump("restricted_domain_successes_" + path)
+        if not np.isfinite(res):
+            rec.violate("false_success", "success_claimed_where_the_function_is_not_finite", feats, x=np.asarray(x, dtype=np.float64).reshape(-1)[:4], tol=tol_eff)
+        elif res > bound:
             mech = "success_claimed_with_large_residual"
             if not S.has_root:
                 mech = "success_claimed_on_a_system_without_roots"
@@ -186,6 +216,8 @@ def run_case(spec):
             rec.violate("false_success", mech, feats, residual=res, bound=bound, x=np.asarray(x, dtype=np.float64).reshape(-1)[:4], tol=tol_eff, Jnorm=Jn)
     else:
         rec.bump("failure_" + path)
+        if S.fam in ("logdom", "sqrtdom"):
+            rec.bump("restricted_domain_failures_" + path)
         if S.has_root and spec["guess"] == "good" and spec["fam"] in ("dd",):
             rec.bump("failed_on_solvable_good_guess")
     return rec.out()
